@@ -433,6 +433,22 @@ fn cfg_term(r: &Option<RunCfg>) -> String {
 // generators
 // ------------------------------------------------------------------------------------------------
 
+/// maximal bracket nesting of a JSON text whose strings contain no brackets
+fn json_nesting(t: &[u8]) -> usize {
+    let (mut cur, mut max) = (0usize, 0usize);
+    for b in t {
+        match b {
+            b'[' | b'{' => {
+                cur += 1;
+                max = max.max(cur);
+            }
+            b']' | b'}' => cur = cur.saturating_sub(1),
+            _ => {}
+        }
+    }
+    max
+}
+
 fn json_of(m: &Module) -> Vec<u8> {
     serde_json::to_vec(m).expect("serialize module")
 }
@@ -520,6 +536,7 @@ pub fn corpus(rng: &mut Rng, thorough: bool) -> Vec<Spec> {
         functions: fns.into_iter().map(|(n, f)| (n.to_string(), f)).collect(),
         imports: imports.into_iter().map(|s| s.to_string()).collect(),
     };
+    v.push(spec_json("front.super_limit", &sub(vec![("main", f0())], vec![], vec![("a", sub(vec![("f", call("bar", vec![]))], vec!["super.super.bar"], vec![]))]), None));
     v.push(spec_json("front.import_self", &sub(vec![("main", call("main", vec![]))], vec!["main.main", "super.main"], vec![]), Some(default_run(1000))));
     v.push(spec_json(
         "front.import_cycle",
@@ -630,14 +647,32 @@ fn deep(thorough: bool) -> Vec<Spec> {
         if *k == "module" {
             continue;
         }
-        // serialised: the loader must accept or refuse, never crash
-        // the loaders refuse somewhere between 55 and 62 levels of cards (2 text levels per card, limit 128)
-        let depths: &[usize] = if thorough { &[5, 30, 50, 54, 55, 56, 57, 58, 59, 60, 61, 62, 63, 64, 65, 127, 128, 200, 1000] } else { &[30, 57, 58, 59, 60, 61, 62, 200] };
-        for d in depths.iter() {
+        // serialised: the loader must accept or refuse, never crash. The depths are chosen so that the bracket nesting
+        // of the JSON text is just below / at / above the loaders' limit of 128 (the parent only counts brackets)
+        let nest = |d: usize| json_nesting(&json_of(&deep_module(&format!("{} {}", k, d))));
+        let mut depths: Vec<usize> = vec![30];
+        for target in 124..=131usize {
+            // largest d with nest(d) <= target
+            let (mut lo, mut hi) = (1usize, 130usize);
+            while lo < hi {
+                let mid = (lo + hi + 1) / 2;
+                if nest(mid) <= target { lo = mid } else { hi = mid - 1 }
+            }
+            if !depths.contains(&lo) {
+                depths.push(lo);
+            }
+        }
+        depths.push(200);
+        if thorough {
+            depths.extend([5usize, 50, 64, 128, 1000]);
+        }
+        for (j, d) in depths.iter().enumerate() {
             let m = deep_module(&format!("{} {}", k, d));
-            let fmt = if (d + k.len()) % 2 == 0 { "yaml" } else { "json" };
-            let text = if fmt == "yaml" { yaml_of(&m) } else { json_of(&m) };
-            v.push(Spec { classes: vec![format!("deep.loader.{}", k), format!("deep.loader.{}", fmt)], fmt, text, limit: 64, run: Some(default_run(10_000)) });
+            let fmts: Vec<&'static str> = if thorough { vec!["json", "yaml"] } else if (j + k.len()) % 2 == 0 { vec!["yaml"] } else { vec!["json"] };
+            for fmt in fmts {
+                let text = if fmt == "yaml" { yaml_of(&m) } else { json_of(&m) };
+                v.push(Spec { classes: vec![format!("deep.loader.{}", k), format!("deep.loader.{}", fmt)], fmt, text, limit: 64, run: Some(default_run(10_000)) });
+            }
         }
         // built in the worker: nesting that no loader admits (outside the property's domain)
         let depths: &[usize] = if thorough { &[150, 1000, 5000, 20_000, 100_000] } else { &[1000, 100_000] };
@@ -694,10 +729,11 @@ fn random_json(rng: &mut Rng, depth: usize, out: &mut String) {
 }
 
 /// malformed texts: mutations of valid serialisations, token soup, deep brackets
-fn texts(rng: &mut Rng, n: usize) -> Vec<Spec> {
+fn texts(rng: &mut Rng, n: usize, thorough: bool) -> Vec<Spec> {
     let mut v = vec![];
     // deep brackets: within and far beyond the loaders' limit
-    for d in [10usize, 126, 127, 128, 129, 1000, 100_000, 2_000_000] {
+    let bracket_depths: &[usize] = if thorough { &[10, 126, 127, 128, 129, 1000, 100_000, 2_000_000] } else { &[127, 129, 100_000, 2_000_000] };
+    for d in bracket_depths.iter().copied() {
         v.push(Spec { classes: vec!["text.deep_brackets".into()], fmt: "json", text: "[".repeat(d).into_bytes(), limit: 64, run: None });
         v.push(Spec { classes: vec!["text.deep_brackets".into()], fmt: "json", text: ("[".repeat(d) + &"]".repeat(d)).into_bytes(), limit: 64, run: None });
         v.push(Spec { classes: vec!["text.deep_brackets".into()], fmt: "json", text: ("{\"a\":".repeat(d) + "1" + &"}".repeat(d)).into_bytes(), limit: 64, run: None });
@@ -748,7 +784,8 @@ fn texts(rng: &mut Rng, n: usize) -> Vec<Spec> {
     }
     // mutations of valid serialisations
     let mut i = 0;
-    while v.len() < n {
+    let fixed_texts = v.len();
+    while v.len() < fixed_texts + n {
         i += 1;
         let mut cfg = GenCfg::default();
         cfg.many_globals = true;
@@ -909,21 +946,19 @@ fn config_cases(rng: &mut Rng, n: usize, w_dist: &mut Vec<String>) -> Vec<Spec> 
         RunCfg { mem: 128, stack: 2, calls: 2, budget: 3, twice: true },
     ];
     while v.len() < n {
-        let (name, m) = pool[k % pool.len()].clone();
-        let cfg = if k < pool.len() {
-            default_run(20_000)
-        } else if k < pool.len() + fixed.len() * 6 {
-            fixed[(k - pool.len()) % fixed.len()].clone()
-        } else {
-            random_cfg(rng)
+        let (name, m) = pool[(k * 7 + k / 5) % pool.len()].clone();
+        let cfg = match k % 5 {
+            0 => default_run(20_000),
+            1 | 2 => fixed[(k / 5 * 2 + k % 5 - 1) % fixed.len()].clone(),
+            _ => random_cfg(rng),
         };
-        let (name, m) = if k >= pool.len() * 2 && k % 3 == 0 {
+        let (name, m) = if k % 6 == 3 {
             // a random program instead of a corpus one
             let reals = rng.chance(1, 2);
             let mut sub = Rng::new(rng.next());
             let mut g = vmgen::Gen::new(&mut sub, reals);
             ("vmgen.random".to_string(), g.module())
-        } else if k >= pool.len() * 2 && k % 3 == 1 {
+        } else if k % 6 == 4 {
             let mut cfgm = GenCfg::default();
             cfgm.fault_permille = 0;
             cfgm.allow_huge = false;
@@ -971,9 +1006,9 @@ pub fn gen(a: &Args) {
     specs.extend(corpus(&mut rng, thorough));
     specs.extend(extreme(&mut rng, thorough));
     specs.extend(deep(thorough));
-    let fixed = specs.len();
-    let rest = a.n.saturating_sub(fixed).max(40);
-    specs.extend(texts(&mut rng, rest / 2));
+    // a.n = number of random cases (texts and configurations), in addition to the fixed ones above
+    let rest = a.n.max(40);
+    specs.extend(texts(&mut rng, rest / 2, thorough));
     let mut dummy = vec![];
     specs.extend(config_cases(&mut rng, rest - rest / 2, &mut dummy));
 
@@ -1016,7 +1051,7 @@ pub fn gen(a: &Args) {
     }
     let results = results.lock().unwrap();
 
-    let per_shard = ((specs.len() + 31) / 32).max(4);
+    let per_shard = ((specs.len() + 15) / 16).max(4);
     let mut w = CaseWriter::new(&a.out, "C04Check", per_shard);
     let mut crashes = vec![];
     for (i, s) in specs.iter().enumerate() {
